@@ -754,13 +754,20 @@ async fn force_https_thread(monitor: MonitorConfig) -> Result<(), Box<dyn std::e
     Ok(())
 }
 
+/// The time the redirect task waits for a client on port 80 to send its request.
+#[cfg(feature = "tls")]
+const FORCE_HTTPS_TIMEOUT: std::time::Duration = std::time::Duration::from_secs(5);
+
 /// Reads one request from the insecure stream and answers it with a redirect to HTTPS.
 #[cfg(feature = "tls")]
 async fn force_https_redirect(
     stream: &mut TcpStream,
     addr: std::net::SocketAddr,
 ) -> Result<(), Box<dyn std::error::Error>> {
-    let request = Request::from_stream(stream, addr).await?;
+    // The redirect task handles one connection at a time, so it must not wait forever for a client
+    //   which connects and then sends nothing.
+    let request =
+        tokio::time::timeout(FORCE_HTTPS_TIMEOUT, Request::from_stream(stream, addr)).await??;
 
     let response = if let Some(host) = request.headers.get(&HeaderType::Host) {
         // The request target is the path and, if there is one, the query string
